@@ -666,7 +666,12 @@ func c18(c *core.Ctx) {
 	}
 	// concurrent sessions on the shared tree, under the controlled scheduler
 	var plans []Plan
+	var raceScs []*explore.Scenario
 	for _, sc := range c18Scenarios() {
+		if strings.HasPrefix(sc.Name, "race/") {
+			raceScs = append(raceScs, sc)
+			continue
+		}
 		if c.Quick() {
 			plans = append(plans, Plan{Sc: sc, Max: 3}, Plan{Sc: sc, Delay: true, Max: 4})
 		} else {
@@ -674,5 +679,10 @@ func c18(c *core.Ctx) {
 		}
 	}
 	runPlans(c, plans)
+	rb := 2
+	if !c.Quick() {
+		rb = 6
+	}
+	runRaceMode(c, raceScs, rb)
 	c.Set("concurrent", "2-3 sessions x 1-2 operations on one shared ramfs tree (create|walk, create|create-same-name, create|list, write|read, write|write|read, remove|walk-up, remove|create-inside, clunk|walk, remove|remove-same, create|remove|walk); every interleaving at every lock operation up to the bound; oracle: no panic, all return, brute-force linearizability against the reference tree incl. the final tree read back, nref==links after clunking everything")
 }
